@@ -1,6 +1,7 @@
 import CanvasProofs.Lemmas.C05
 import CanvasProofs.Lemmas.C05FixStart
 import CanvasProofs.Lemmas.C05Scale
+import CanvasProofs.Lemmas.C05Refine
 
 /-! # C05 — dashing cuts the path by arc length according to the pattern
 
@@ -145,6 +146,138 @@ theorem kept_pieces_are_drawn_cuts_made (d : List K) (hnn : ∀ x ∈ d, 0 ≤ x
   apply kept_pieces_are_drawn d hnn heven offset pos0 J0 M (m - (nt - made)) made _ hal (by omega) (by omega) k hk x
   rw [e]; exact hx
 
+/-- REFINEMENT of the per-subpath part of `Dash` (position loop, selection of the pieces, join over
+the start point of a closed subpath, output order) to the pattern semantics, for every pattern with
+positive entries and even length, every phase-aligned start `(J0, pos0)` with `pos0 ≤ 0`, every
+subpath length, open or closed, with exact cuts and `Epsilon = 0`: the set of arc-length positions
+covered by the returned pieces is exactly the pattern's drawn set inside `[0, length)`. -/
+theorem subpath_refines_pattern (d : List K) (hne : d ≠ []) (hpos : ∀ x ∈ d, 0 < x)
+    (heven : d.length % 2 = 0) (offset pos0 : K) (J0 M : Nat)
+    (hal : offset + pos0 + pre d (M * d.length) = pre d J0) (hp0 : pos0 ≤ 0)
+    (length : K) (fuel : Nat) (closed : Bool) (out : List (K × K))
+    (h : subpathIntervals 0 fuel d (J0 % d.length) pos0 length closed = some out)
+    (x : K) (hx0 : 0 ≤ x) (hxl : x < length) :
+    DrawnBy length out x ↔ DrawnE d (offset + x) := by
+  have hnn : ∀ y ∈ d, 0 ≤ y := fun y hy => le_of_lt (hpos y hy)
+  unfold subpathIntervals at h
+  cases hloop : positionsLoop 0 d length fuel (J0 % d.length) pos0 [] with
+  | none => rw [hloop] at h; simp at h
+  | some r =>
+    obtain ⟨t, iEnd⟩ := r
+    rw [hloop] at h
+    simp only [Option.some.injEq] at h
+    subst h
+    obtain ⟨m, e1, e2, _, e4, e5, _, _, hnt⟩ :=
+      positions_follow_pattern 0 (le_refl _) d hne hpos length fuel J0 pos0 t iEnd hloop
+    have R : Run d J0 pos0 length t m :=
+      { hne := hne, hpos := hpos, hp0 := hp0, ht := e2,
+        hlt := fun k hk => by have := e4 k hk; rwa [add_zero] at this,
+        hstop := by rw [add_zero] at e5; exact not_lt.mp e5 }
+    have hlen : 0 < length := lt_of_le_of_lt hx0 hxl
+    have hend := end_index_parity d.length J0 m iEnd heven e1
+    rw [assemble_covers t iEnd length closed x (fun k hk => R.lo_lt_hi hlen k hk) (fun h2 => R.first_lt_last h2)]
+    constructor
+    · rintro ⟨k, hk, hin⟩
+      have hkn : k ≤ t.length := ((kept_iff _ _ _).mp hk).1
+      have hw := R.inB_walk k hkn x hx0 hxl hin
+      exact (kept_pieces_are_drawn d hnn heven offset pos0 J0 M m t.length iEnd hal hend hnt k hkn x hw).mp hk
+    · intro hd
+      obtain ⟨k, hkn, hin⟩ := R.exists_piece x hx0 hxl
+      have hw := R.inB_walk k hkn x hx0 hxl hin
+      exact ⟨k, (kept_pieces_are_drawn d hnn heven offset pos0 J0 M m t.length iEnd hal hend hnt k hkn x hw).mpr hd, hin⟩
+
+/-- Since `dashStart` returns a start inside piece `i0` (`-pos0 < d[i0]`, `start_invariant`), the
+first position of the loop is already positive: the `if 0.0 < pos` filter of path.go never drops a
+position (the branch is unreachable since 8d5b47c; the generators cannot reach it either), and the
+final pattern index is the start index advanced by the number of cuts. -/
+theorem positions_none_skipped (d : List K) (hne : d ≠ []) (hpos : ∀ x ∈ d, 0 < x) (length : K)
+    (fuel J0 : Nat) (pos0 : K) (t : List K) (iEnd : Nat) (hp0 : pos0 ≤ 0) (hin : -pos0 < cyc d J0)
+    (h : positionsLoop 0 d length fuel (J0 % d.length) pos0 [] = some (t, iEnd)) :
+    iEnd = (J0 + t.length) % d.length := by
+  obtain ⟨m, e1, e2, _, e4, e5, _, _, hnt⟩ :=
+    positions_follow_pattern 0 (le_refl _) d hne hpos length fuel J0 pos0 t iEnd h
+  have R : Run d J0 pos0 length t m :=
+    { hne := hne, hpos := hpos, hp0 := hp0, ht := e2,
+      hlt := fun k hk => by have := e4 k hk; rwa [add_zero] at this,
+      hstop := by rw [add_zero] at e5; exact not_lt.mp e5 }
+  have hm : t.length = m := by
+    by_contra hne'
+    have h1 : 1 ≤ m - t.length := by omega
+    have hs := R.start_le
+    have hmono : cpos d J0 pos0 1 ≤ cpos d J0 pos0 (m - t.length) := by
+      rcases Nat.eq_or_lt_of_le h1 with heq | hlt
+      · rw [← heq]
+      · exact le_of_lt (cpos_strictMono d hne hpos J0 pos0 _ _ hlt)
+    have hc1 : cpos d J0 pos0 1 = pos0 + cyc d J0 := by
+      rw [show (1 : Nat) = 0 + 1 from rfl, cpos_succ, cpos_zero]; simp
+    linarith
+  rw [hm]; exact e1
+
+/-- `Dash` on one subpath, from the offset: with the start computed by `dashStart` (any offset, also
+negative or many periods) the returned pieces cover exactly the points `x ∈ [0, length)` whose
+phase `offset + x` the (canonical, even-length, positive) pattern draws. This is the composition of
+`start_invariant` and `subpath_refines_pattern`; it holds for every subpath independently because
+`Dash` restarts every subpath from the same `(i0, pos0)`. -/
+theorem dash_subpath_refines_pattern (fmod : K → K → K) (d : List K) (hne : d ≠ []) (hpos : ∀ x ∈ d, 0 < x)
+    (heven : d.length % 2 = 0) (hmod : FmodSpec fmod d) (offset : K) (fuel : Nat) (i0 : Nat) (pos0 : K)
+    (hs : dashStart fmod fuel offset d = some (i0, pos0))
+    (length : K) (closed : Bool) (out : List (K × K))
+    (h : subpathIntervals 0 fuel d i0 pos0 length closed = some out)
+    (x : K) (hx0 : 0 ≤ x) (hxl : x < length) :
+    DrawnBy length out x ↔ DrawnE d (offset + x) := by
+  obtain ⟨hp0, _, J, M, hJ, _, hal, _⟩ :=
+    start_invariant fmod d hne (fun y hy => le_of_lt (hpos y hy)) hmod fuel offset i0 pos0 hs
+  rw [← hJ] at h
+  exact subpath_refines_pattern d hne hpos heven offset pos0 J M hal hp0 length fuel closed out h x hx0 hxl
+
+/-- Soundness of the executable verdict's classifier: `drawnAt` (the parity of the piece index that
+`dashStart` finds for the phase) decides the pattern semantics `DrawnE`, for every phase. -/
+theorem phase_drawn_iff (fmod : K → K → K) (d : List K) (hne : d ≠ []) (hnn : ∀ x ∈ d, 0 ≤ x)
+    (heven : d.length % 2 = 0) (hmod : FmodSpec fmod d) (fuel : Nat) (φ : K) (b : Bool)
+    (h : drawnAt fmod fuel d φ = some b) : b = true ↔ DrawnE d φ := by
+  unfold drawnAt at h
+  cases hs : dashStart fmod fuel φ d with
+  | none => rw [hs] at h; simp at h
+  | some r =>
+    obtain ⟨i0, pos0⟩ := r
+    rw [hs] at h
+    simp only [Option.some.injEq] at h
+    obtain ⟨hp0, _, J, M, hJ, hlt, hal, _⟩ := start_invariant fmod d hne hnn hmod fuel φ i0 pos0 hs
+    have hin : InPiece d J (φ + pre d (M * d.length)) := by
+      unfold InPiece; rw [pre_succ]; constructor <;> linarith
+    rw [drawnE_iff_of_inPiece d hnn heven J M φ hin, ← h]
+    have h2 : i0 % 2 = J % 2 := by
+      rw [← hJ]; exact Nat.mod_mod_of_dvd _ (Nat.dvd_of_mod_eq_zero heven)
+    simp only [beq_iff_eq]
+    omega
+
+/-- The verdict is monotone in the tolerance: a sample point accepted with `τ` is accepted with
+every `τ' ≥ τ`. -/
+theorem sampleOk_mono (fmod : K → K → K) (fuel : Nat) (offset : K) (d : List K) (length τ τ' : K)
+    (obs : List (K × K)) (ends : List K) (x : K) (hτ : τ ≤ τ')
+    (h : sampleOk fmod fuel offset d length τ obs ends x = true) :
+    sampleOk fmod fuel offset d length τ' obs ends x = true := by
+  unfold sampleOk at h ⊢
+  cases hd : drawnAt fmod fuel d (offset + x) with
+  | none => rw [hd] at h; simp at h
+  | some b =>
+    rw [hd] at h
+    simp only [Bool.or_eq_true] at h ⊢
+    rcases h with h | h
+    · exact Or.inl h
+    · right
+      unfold nearB at h ⊢
+      rw [List.any_eq_true] at h ⊢
+      obtain ⟨e, he, hc⟩ := h
+      refine ⟨e, he, ?_⟩
+      simp only [Bool.and_eq_true, decide_eq_true_eq] at hc ⊢
+      exact ⟨by linarith [hc.1], by linarith [hc.2]⟩
+
+/-- `coversB` is the executable form of `Covers`. -/
+theorem coversB_iff (length : K) (ab : K × K) (x : K) : coversB length ab x = true ↔ Covers length ab x := by
+  unfold coversB Covers
+  simp only [Bool.or_eq_true, Bool.and_eq_true, decide_eq_true_eq, and_assoc]
+
 /-- Unit independence of the position list (exact arithmetic): with pattern, start position and
 subpath length multiplied by `s > 0`, `Dash` computes `s` times the same cut positions and the same
 final index. Together with `start_scale_invariant`: the bookkeeping of `Dash` does not depend on
@@ -245,6 +378,9 @@ example : positionsLoop (0 : Int) [2, 2] 10 20 1 (-1) [] = some ([1, 3, 5, 7, 9]
 example : (List.range 6).filter (kept 5 0) = [1, 3, 5] := by decide
 example : dash Int.tmod (0 : Int) 50 (-1) [2, 2] [(10, false)] = .pieces [(0, 1, 3), (0, 5, 7), (0, 9, 10)] := by decide
 example : dash Int.tmod (0 : Int) 50 (-5) [2, 2] [(10, false)] = .pieces [(0, 1, 3), (0, 5, 7), (0, 9, 10)] := by decide
+example : subpathIntervals (0 : Int) 50 [2, 2] 1 (-1) 12 true = some [(1, 3), (5, 7), (9, 11)] := by decide
+example : subpathIntervals (0 : Int) 50 [2, 2] 1 (-1) 10 true = some [(9, 10), (1, 3), (5, 7)] := by decide
+example : subpathIntervals (0 : Int) 50 [2, 2] 0 (-1) 12 true = some [(11, 1), (3, 5), (7, 9)] := by decide
 example : dash Int.tmod (0 : Int) 50 0 [1, 0, 2, 3] [(10, false)] = .pieces [(0, 0, 3), (0, 6, 9)] := by decide
 
 end C05
